@@ -4,6 +4,9 @@ import (
 	"context"
 	"errors"
 	"fmt"
+	"math"
+	"math/big"
+	"strconv"
 	"strings"
 
 	"github.com/aundis/formula"
@@ -204,7 +207,104 @@ var c11RetErr = core.Mon(c11, "returned-error", func(w *core.W, c *RetErrCase) {
 	}
 })
 
+// RetNumCase: a returned Go int, int32, int64, float32 or float64 becomes the formula number with that value
+// (integers exactly; floats as the decimal they print as, the convention C04 checks for data values).
+type RetNumCase struct {
+	Kind string `json:"kind"`
+	Int  int64  `json:"int,omitempty"`
+	Exp2 int    `json:"exp2,omitempty"` // floats: Int * 2^Exp2
+}
+
+var c11RetNum = core.Mon(c11, "returned-number", func(w *core.W, c *RetNumCase) {
+	var fn interface{}
+	exact := new(big.Rat).SetInt64(c.Int)
+	switch c.Kind {
+	case "int":
+		fn = func() (int, error) { return int(c.Int), nil }
+	case "int32":
+		if c.Int != int64(int32(c.Int)) {
+			w.Skip("retnum-out-of-range")
+			return
+		}
+		fn = func() (int32, error) { return int32(c.Int), nil }
+	case "int64":
+		fn = func() (int64, error) { return c.Int, nil }
+	case "float64", "float32":
+		f := math.Ldexp(float64(c.Int), c.Exp2)
+		if math.IsInf(f, 0) || (c.Kind == "float32" && float64(float32(f)) != f) {
+			w.Skip("retnum-not-representable")
+			return
+		}
+		exact.SetFloat64(f)
+		if c.Kind == "float32" {
+			fn = func() (float32, error) { return float32(f), nil }
+		} else {
+			fn = func() (float64, error) { return f, nil }
+		}
+	}
+	lit := exact.FloatString(0)
+	if c.Kind == "float64" || c.Kind == "float32" {
+		// a float enters as the decimal it prints as (shortest text that reads back to the same float64), as for data (C04)
+		f, _ := exact.Float64()
+		lit = strconv.FormatFloat(f, 'f', -1, 64)
+	}
+	if len(lit) > 400 {
+		w.Skip("retnum-long-expansion")
+		return
+	}
+	plit := lit
+	if strings.HasPrefix(lit, "-") {
+		plit = "(" + lit + ")"
+	}
+	data := map[string]interface{}{"ret": fn, "see": func(x interface{}) (interface{}, error) { return x, nil }}
+	src := "[ret() === " + plit + ", ret() - " + plit + " === 0, (ret() > 0) === (" + plit + " > 0), (ret() < 0) === (" + plit + " < 0), typeof ret(), see(ret()) === " + plit + ", $r = ret(), $r === " + plit + "]"
+	v, err, panicked, pv := resolveIn(data, src)
+	w.Eval(1)
+	w.Count("returned_number_cases")
+	w.Nontrivial("retnum:" + core.HashStr(c))
+	if panicked || err != nil {
+		w.Violation("returned-number", "C11/returned-number-error:"+c.Kind, c, "a value", fmt.Sprint(pv, err), src)
+		return
+	}
+	arr, _ := v.([]interface{})
+	if len(arr) != 8 {
+		return
+	}
+	for i, e := range arr {
+		if i == 4 || i == 6 {
+			continue
+		}
+		if e != true {
+			w.Violation("returned-number", "C11/returned-number-value:"+c.Kind, c, "the formula number "+lit, show(v), fmt.Sprintf("a Go %s with value %s returned by a host function: check %d of %s is not true", c.Kind, lit, i, src))
+			return
+		}
+	}
+	if arr[4] != "number" {
+		w.Violation("returned-number", "C11/returned-number-kind:"+c.Kind, c, "number", show(arr[4]), src)
+	}
+})
+
 func runC11b(w *core.W) {
+	ri := 0
+	ints := []int64{0, 1, -1, 7, 255, 256, -128, 65535, 1 << 31, -(1 << 31), 1<<31 - 1, 1 << 32, 1<<53 - 1, 1 << 53, 1<<53 + 1, 1 << 62, math.MaxInt64, math.MinInt64, math.MaxInt64 - 1, 999999999999999999, -999999999999999999, 1000000000000000000}
+	for _, k := range []string{"int", "int32", "int64"} {
+		for _, i := range ints {
+			ri++
+			if w.Mine(ri) {
+				c11RetNum(w, &RetNumCase{Kind: k, Int: i})
+			}
+		}
+	}
+	for _, k := range []string{"float64", "float32"} {
+		for _, m := range []int64{0, 1, -1, 3, -3, 5, 1<<24 - 1, 1<<53 - 1, -(1<<53 - 1)} {
+			for _, e := range []int{0, 1, -1, -2, -10, 10, 23, 24, 31, 32, 52, 53, 62, 63, 64, 65, 100, 127, -126, -149, 1000, -1074} {
+				ri++
+				if w.Mine(ri) {
+					c11RetNum(w, &RetNumCase{Kind: k, Int: m, Exp2: e})
+				}
+			}
+		}
+	}
 	idx := 0
 	nums := []string{"2.75", "-7.5", "0.5", "-0.5", "3", "300.25", "99999999999.9", "1e3", "1.5e1", "12345678901234567890.5", "0.1", "7.000", "-2.7", "1e-20", "123456789.000000000000000000001"}
 	for _, k := range paramKinds {
